@@ -1890,6 +1890,18 @@ class StmtMixin(object):
                         self.eval(st, env, a)
                     except AnalysisError:
                         pass
+        if name is None and s.exc is not None:
+            # `raise helper(...)` / `raise err`: the exception object is a value; its class is what
+            # the expression evaluates to
+            val = self.eval(st, env, s.exc)
+            if isinstance(val, App) and val.op == "exc" and val.attrs:
+                name = val.attrs[0]
+            elif isinstance(val, Ref) and st.heap[val.id].kind == "inst":
+                name = st.heap[val.id].cls.name
+            elif isinstance(val, ClassVal):
+                name = val.cls.name
+            if name is None:
+                raise AnalysisError("E5.raise", "cannot tell which exception %s raises" % short(s), s, module)
         self.event("raise", s, module, st, exc=name, snapshot=(st.copy() if getattr(self, "try_depth", 0) > 0 else None))
         raise Dead()
 
